@@ -378,6 +378,8 @@ pub fn imports(max_items: usize, trivia: &[(&str, &str)]) -> Inputs {
         for items in &lists {
             if items.is_empty() {
                 for (cn, pre, post) in &ctxs {
+                    out.push((format!("import:{cn}:empty-paren"), format!("{pre}import {m}: (){post}")));
+                    out.push((format!("import:{cn}:empty-paren-sp"), format!("{pre}import {m}: ( ){post}")));
                     out.push((format!("import:{cn}:bare"), format!("{pre}import {m}{post}")));
                     if !m.contains(" as ") {
                         out.push((format!("import:{cn}:star"), format!("{pre}import {m}: *{post}")));
